@@ -9,8 +9,8 @@ TEXT = ('bounded symbolic execution (irsym+z3) of TbfInteractionCounter<kernel> 
 
 def run(ctx):
     q = ctx.quick()
-    T = [('d1.h5.n3', D(1, 5, 3, 1), [-2, -1, 0, -2, 0, 0], 200, ''), ('d2.h3.n3', D(2, 3, 3, 1), [2, -1, 0, -1, 0, 0], 240, ''),
-         ('d3.h3.n2', D(3, 3, 2, 1), [1, 0, 0, -1, 0, 0], 240, ''), ('d1.h3.n3.faces', D(1, 3, 3, 0), [-2, -1, 0, -2, 0, 0], 120, 'coincident particles and faces')]
+    T = [('d1.h5.n2', D(1, 5, 2, 0), [-2, -1, 0, -2, 0, 0], 200, ''), ('d2.h3.n3', D(2, 3, 3, 1), [2, -1, 0, -1, 0, 0], 240, ''),
+         ('d3.h2.n3', D(3, 2, 3, 1), [-2, -1, 0, -1, 0, 0], 240, ''), ('d1.h3.n3.faces', D(1, 3, 3, 0), [-2, -1, 0, -2, 0, 0], 120, 'coincident particles and faces')]
     if not q:
         T += [('d2.h4.n3', D(2, 4, 3, 1), [-4, -1, 0, -2, 0, 0], 2400, ''), ('d3.h3.n3', D(3, 3, 3, 1), [-3, -1, 0, -1, 0, 0], 2400, ''), ('d1.h6.n4', D(1, 6, 4, 1), [-5, -1, 0, -2, 0, 0], 1800, '')]
     ctx.bounds.update(dict(trees='Dim 1-3, heights 3-5 (6 thorough), 2-3 particles (4 thorough), block sizes 1..N+1, both modes, upper level {2,0}',
